@@ -38,6 +38,10 @@ var menu = [][]mapref.DP{
 	{{Type: "s", Name: "s", Empty: true, TS: 4}},
 	// one tag set written in two orders (two tags sharing a key): one series
 	{{Type: "c", Name: "a", Value: 1, Rate: 1, TS: 1, Tags: []string{"k:v", "k:w"}}, {Type: "c", Name: "a", Value: 2, Rate: 1, TS: 1, Tags: []string{"k:w", "k:v"}}},
+	// an older timer batch that is bigger than what a newer one left behind
+	{{Type: "ms", Name: "t", Value: 6, Rate: 1, TS: 0}, {Type: "ms", Name: "t", Value: 7, Rate: 1, TS: 0}, {Type: "ms", Name: "t", Value: 8, Rate: 1, TS: 0}},
+	// a fractional counter value with a sample rate
+	{{Type: "c", Name: "a", Value: 2.5, Rate: 0.5, TS: 1}},
 	// a counter batch that nets to zero but carries the newest timestamp
 	{{Type: "c", Name: "a", Value: 0, Rate: 1, TS: 5}},
 	// a sampled timer of an existing name under another tag set, after an untagged datapoint in the same map
